@@ -64,6 +64,10 @@ def specials():
         S['directive-late/' + d.replace('\n', '|')] = 'char a;\nvoid main() {}\n' + d
     for m in ('#define A A', '#define A A+1', '#define A B\n#define B A', '#define F(x) F(x)', '#define F(x) x F(x)', '#define A(x) A', '#define A'):
         S['selfmacro/' + m.replace('\n', '|')] = m + '\nchar c;\nvoid main() { c = A; c = F(1); }\n'
+    S['selfmacro/double'] = '#define Q Q Q\nchar c;\nvoid main() { c = Q; }\n'; S['selfmacro/triple-args'] = '#define F(x) F(x) F(x) F(x)\nchar c;\nvoid main() { c = F(1); }\n'
+    S['proto/as-value'] = 'char c;\nvoid f();\nvoid main() { c = f; }\n'; S['func/as-value'] = 'char c;\nvoid f() {}\nvoid main() { c = f; }\n'; S['proto/as-index'] = 'char t[2];\nvoid f();\nvoid main() { t[f] = 1; }\n'
+    S['continue-in-switch-in-do'] = 'char a, b;\nvoid main() { do { switch (a) { case 1: continue; default: b = 1; } a++; } while (a < 3); }\n'
+    S['break-in-switch-in-for'] = 'char a, b;\nvoid main() { for (a = 0; a < 3; a++) { switch (a) { case 1: break; default: continue; } b++; } }\n'
     S['macros150'] = ''.join('#define M%d %d\n' % (k, k) for k in range(150)) + '#undef M120\n#undef M3\nchar c;\nvoid main() { c = M5 + M149; }\n'
     S['macros150-undef-all'] = ''.join('#define M%d %d\n' % (k, k) for k in range(150)) + ''.join('#undef M%d\n' % k for k in range(149, -1, -1)) + 'void main() {}\n'
     S['macro-redef'] = '#define A 1\n#define A 2\nvoid main() {}\n'; S['macro-args-mismatch'] = '#define F(a, b) a\nchar c;\nvoid main() { c = F(1); }\n'
@@ -115,6 +119,12 @@ def run(tier):
     st['isolated'] = s10['unconfirmed_isolated'][:6]
     # (b) enumerated near-valid inputs
     reqs = [(pid, [], s) for pid, s in mutations(tier)] + [('special/' + n, ['-I', '/nonexistent'], s) for n, s in specials().items()]
+    # listing option: statements on the last line, with and without a final newline, one-line programs
+    for n, s in base_programs().items():
+        one = ' '.join(l for l in s.split('\n') if not l.startswith('#'))
+        head = '\n'.join(l for l in s.split('\n') if l.startswith('#'))
+        for k, t in enumerate((s, s.rstrip('\n'), head + '\n' + one + '\n', head + '\n' + one)):
+            reqs.append(('listing/%s/%d' % (n, k), ['--insert-code'], t)); reqs.append(('listing-O0/%s/%d' % (n, k), ['--insert-code', '-O0'], t))
     t0 = time.time()
     R = common.compile_many(reqs, timeout_ms=4000)
     st['inputs'] = len(reqs); st['compile_wall_s'] = round(time.time() - t0, 1)
